@@ -24,11 +24,22 @@ def opElements (j : Json) : M Json := do
         Json.arr ((nodeElements D).map fun (v, c, neg) =>
           if withChips then Json.arr #[jNat v.1, jInt c, Json.str (if neg then "negative" else "non-negative")]
           else Json.arr #[jNat v.1, Json.null, Json.str "neutral_divisor_sign"]).toArray
-      pure <| Json.mkObj [
+      let pairs2 : Option (List (Nat × Nat)) := match (j.getObjVal? "second_orient").toOption with
+        | some (Json.arr a) => some (a.toList.filterMap fun e =>
+            match e.getArr? with
+            | .ok t => (match t[0]!.getNat?, t[1]!.getNat? with | .ok a, .ok b => some (a, b) | _, _ => none)
+            | _ => none)
+        | _ => none
+      let extra : List (String × Json) := match pairs2 with
+        | some ps => (match Orient.new G ps with
+          | .ok o2 => [("orientation2_nodes", nodes false), ("orientation2_edges", jEdge o2.st)]
+          | .error _ => [])
+        | none => []
+      pure <| Json.mkObj (extra ++ [
         ("graph_nodes", nodes false), ("graph_edges", jEdge (fun _ _ => 0)),
         ("divisor_nodes", nodes true), ("divisor_edges", jEdge (fun _ _ => 0)),
         ("orientation_nodes", nodes false), ("orientation_edges", jEdge o.st),
         ("ewd_nodes", nodes true), ("ewd_edges", jEdge o.st),
-        ("node_count", jNat n), ("edge_element_count", jNat G.total)]
+        ("node_count", jNat n), ("edge_element_count", jNat G.total)])
 
 end Drv
